@@ -243,6 +243,7 @@ type c06Info struct {
 }
 
 func runC06(c c06Case) (*vstat.Failure, c06Info) {
+	vstat.Begin(c)
 	var info c06Info
 	f := vstat.Catch(func() *vstat.Failure {
 		tag := uniq()
